@@ -559,6 +559,22 @@ theorem C08_gen_reader_types (m : MatrixModel) (text : Bool) (flags : Nat) :
   rw [getD_map_range _ _ _ (vperm_lt m hj)]
   exact C08_types m text flags j hj
 
+/-- the last hand-written link of the reader chain: each `AddVars(count, type)` call made by the generated `AddVariables`
+acts on `is_var_int_` as `std::vector::resize` (library semantics `vecResize`, hand-written) to the GENERATED new size with the
+GENERATED fill value of `BasicProblem<>::AddVars` (include/mp/problem.h); so `varTypesOf` in `C08_gen_reader_types` is the fold of
+generated steps, for any two distinct enum codes of `var::CONTINUOUS` / `var::INTEGER` -/
+theorem C08_gen_addvars (calls : List (Int × Bool)) (contVal intVal : Int) (h : contVal ≠ intVal) :
+    varTypesOf calls =
+      calls.foldl (fun l c => vecResize l (addVarsNewSize l.length c.1).toNat
+        (addVarsFill (if c.2 then intVal else contVal) contVal)) [] := by
+  unfold varTypesOf
+  congr 1
+  funext l c
+  exact applyAddVars_eq_gen l c contVal intVal h
+
+/-- instance: `AddVars(2, CONTINUOUS)`, `AddVars(1, INTEGER)`, then a negative count truncates (release build) -/
+example : varTypesOf [(2, false), (1, true), (-2, false)] = [false] := by decide
+
 /-- the model's `readable` (does the reader accept the `sum` node the feeder writes) is the GENERATED arity test of
 `NLReader::ReadNumArgs` with the generated default minimum `MIN_ITER_ARGS`; with `C08_readable` the generated test never fails on
 what the (padded) writer produces.  That the `sum` case of `ReadNumericExpr` calls `ReadNumArgs()` with the default is sampled. -/
